@@ -711,6 +711,7 @@ package service
 //@   requires validNatmap(m)
 //@   trace[C14,every-association-expired] loop 1 exactly 1 net.PacketConn.SetReadDeadline
 //@   trace[C14,expired-now] loop 1 each net.PacketConn.SetReadDeadline satisfies $arg0 == now
+//@   ensures[C18,table-left-to-the-reclaimers] forall k string :: has(m.keyConn, k) == atlock(has(m.keyConn, k)) && (has(m.keyConn, k) ==> m.keyConn[k] == atlock(m.keyConn[k]))
 
 //@ func UDPConnMetrics.AddPacketFromClient
 //@   abstract
